@@ -255,6 +255,15 @@ class CallsMixin:
             v = pos[0]
             if v.ty[0] == "list":
                 return [(s1, self.list_concat(s1, v, s1.new_list(v.ty[1]), "listcopy"))]
+            if v.ty[0] == "range":
+                lo, hi = v.py
+                r = s1.new_list(("int",), "rangelist")
+                n_ = z3.If(hi - lo > 0, hi - lo, 0)
+                s1.set_len(r.term, n_, ("int",))
+                i = z3.Int(fresh_name("i_rl")); new = z3.FreshConst(z3.ArraySort(z3.IntSort(), z3.IntSort()), "rl_el")
+                s1.assume(z3.ForAll([i], z3.Implies(z3.And(0 <= i, i < n_), z3.Select(new, i) == lo + i)))
+                s1.set_elems(r.term, ("int",), new)
+                return [(s1, r)]
             raise Unsupported(f"list({v.ty})")
         if n in EXC_NAMES:
             return [(s1, V(("exc", n)))]
